@@ -57,7 +57,11 @@ func c15CLI(c *vk.Ctx) {
 		run.Stdout, run.Stderr = &stdout, &stderr
 		rerr := run.Run()
 		_, class, _ := codec.Decode(b)
-		want, werr := vm.NewParseHandler().WithDefaultHandlers().ToString(b)
+		var want string
+		var werr error
+		if pv, _ := vk.Guard(func() { want, werr = vm.NewParseHandler().WithDefaultHandlers().ToString(b) }); pv != nil {
+			werr = fmt.Errorf("panic: %v", pv) // reported by the in-process legs; the command is still judged on its exit status
+		}
 		c.EvalN(1, 1)
 		c.Count("cli_runs", 1)
 		c.Count("cli_class_"+class, 1)
